@@ -402,6 +402,7 @@ func (fr *Frame) execInstr(ins ssa.Instruction, pc *Term, st *State) (*Term, *St
 		st.set("chclosed", Store(cl, r, False))
 		cp := st.get("chcap", SArr(SRef, SBV(64)))
 		st.set("chcap", Store(cp, r, SignExtTo64(fr.val(x.Size).(IntV).T, x.Size.Type())))
+		st.set("chplain", Store(st.get("chplain", SArr(SRef, SBV(64))), r, BV(0, 64)))
 		fr.regs[x] = ChanV{r}
 	case *ssa.MakeMap:
 		r := ex.freshRef(st, pc, "map")
@@ -445,6 +446,8 @@ func (fr *Frame) execInstr(ins ssa.Instruction, pc *Term, st *State) (*Term, *St
 	case *ssa.Select:
 		fr.regs[x] = fr.selectInstr(x, pc, st)
 	case *ssa.Send:
+		fr.st = st
+		fr.plainChanOp(x.Chan, true, x.Pos(), pc)
 		fr.chanSend(fr.val(x.Chan), fr.val(x.X), x.Chan, pc, st, posOf(x))
 	case *ssa.Range:
 		fr.regs[x] = OpaqueV{Fresh("range", SBV(64))}
@@ -572,6 +575,7 @@ func (fr *Frame) unop(x *ssa.UnOp, pc *Term, st *State) Value {
 	case token.XOR:
 		return IntV{BVNotT(v.(IntV).T)}
 	case token.ARROW:
+		fr.plainChanOp(x.X, false, x.Pos(), pc)
 		return fr.chanRecv(v, x, pc, st)
 	}
 	panic(fmt.Sprintf("unop %s on %T", x.Op, v))
@@ -1180,3 +1184,54 @@ func (ex *Exec) escapeSlice(st *State, v Value, pc *Term) Value {
 }
 
 func isScalarElem(t types.Type) bool { _, ok := scalarSort(t); return ok }
+
+// plainChanOp: shutdown discipline (C12) for a channel operation outside a
+// select. Such an operation cannot be woken by Close unless it is a receive
+// from a close-only channel (quit, ctx.Done) or from a timer.
+func (fr *Frame) plainChanOp(ch ssa.Value, send bool, pos token.Pos, pc *Term) {
+	ex := fr.ex
+	if !contains(ex.curProps, "C12") || !(fr.isRoot || fr.fn == ex.sweepFn) {
+		return
+	}
+	ok := False
+	if !send && (ex.ctx.chanDisc(ch) == "closeonly" || isCtxDone(ch) || isTimerChan(ch)) {
+		ok = True
+	}
+	if send {
+		// a send cannot block while the channel has a free buffer slot: the
+		// first plain send of this activation on a channel with capacity >= 1
+		if cv, isCh := fr.val(ch).(ChanV); isCh && fr.st != nil {
+			cnt := fr.st.get("chplain", SArr(SRef, SBV(64)))
+			ok = BVSlt(Select(cnt, cv.Ref), Select(fr.st.get("chcap", SArr(SRef, SBV(64))), cv.Ref))
+			fr.st.set("chplain", Store(cnt, cv.Ref, BVAdd(Select(cnt, cv.Ref), BV(1, 64))))
+		}
+	}
+	saved := ex.clauseProps
+	ex.clauseProps = []string{"C12"}
+	what := "receive"
+	if send {
+		what = "send"
+	}
+	ex.oblige("select-quit", "plain "+what+" "+exprAtPos(ex, pos), pos, pc, ok,
+		"a blocking channel "+what+" outside a select has no arm on a quit channel closed by Close")
+	ex.clauseProps = saved
+}
+
+// isTimerChan: the channel of a time.Timer / time.After (fires by itself).
+func isTimerChan(v ssa.Value) bool {
+	switch x := v.(type) {
+	case *ssa.Call:
+		if f := x.Call.StaticCallee(); f != nil && f.Pkg != nil && f.Pkg.Pkg.Path() == "time" && f.Name() == "After" {
+			return true
+		}
+	case *ssa.UnOp:
+		if fa, ok := x.X.(*ssa.FieldAddr); ok {
+			if pt, ok := fa.X.Type().Underlying().(*types.Pointer); ok {
+				if n, ok := pt.Elem().(*types.Named); ok && n.Obj().Pkg() != nil && n.Obj().Pkg().Path() == "time" {
+					return true
+				}
+			}
+		}
+	}
+	return false
+}
